@@ -10,9 +10,7 @@ def run(ctx):
     if exe is None:
         raise vlib.CheckError("harness build failed:\n" + log[-3000:])
     big = ctx.tier == "thorough"
-    args = ["-seed", ctx.seed, "-scen", 2400 if big else 120, "-steps", 70 if big else 50,
-            "-corpus", os.path.join(vlib.ROOT, "corpus", "c20.tsv")]
-    res = vlib.run_pipeline(ctx, exe, args, mcheck, timeout=3000)
+    res = sharded_pipeline(ctx, exe, mcheck, shards=24 if big else 4, scen=110 if big else 60, steps=70 if big else 50)
     cross_check_in_coq(ctx, 60 if big else 12)
     vlib.judge(ctx, res, "Proto3.v <-> v3 transaction / configuration / mastership reconcilers over the v3 stores")
     vlib.std_coverage(ctx, res,
@@ -42,6 +40,29 @@ def run(ctx):
                  "exhaustively only up to depth 8 inside Coq (C20_safety_bounded_partial) and monitored on the implementation"]
 
 
+def sharded_pipeline(ctx, exe, mcheck, shards, scen, steps):
+    """the harness is run as several processes (one in-memory Atomix cluster, gRPC servers and goroutines per scenario add up in
+    one process); shard k uses seed ctx.seed*1000+k, shard 0 also runs the corpus; the lines are concatenated for one driver run"""
+    from concurrent.futures import ThreadPoolExecutor
+
+    def one(k):
+        args = [exe, "-seed", str(int(ctx.seed) * 1000 + k), "-scen", str(scen), "-steps", str(steps)]
+        if k == 0:
+            args += ["-corpus", os.path.join(vlib.ROOT, "corpus", "c20.tsv")]
+        rc, so, se = vlib.sh2(args, timeout=1500)
+        if rc != 0:
+            raise vlib.CheckError("harness %s (shard %d) failed rc=%s\n%s\n%s" % (exe, k, rc, so[-500:], se[-3000:]))
+        return so
+    with ThreadPoolExecutor(max_workers=6) as ex:
+        outs = list(ex.map(one, range(shards)))
+    so = "".join(outs)
+    open(os.path.join(ctx.work, "lines.tsv"), "w").write(so)
+    rc, mo, me = vlib.sh2([mcheck], inp=so, timeout=3000)
+    if rc != 0:
+        raise vlib.CheckError("mcheck failed rc=%s\n%s\n%s" % (rc, mo[-2000:], me[-2000:]))
+    return vlib.parse_mcheck(mo, so)
+
+
 def cross_check_in_coq(ctx, n_scen):
     """replay the first scenarios' transaction reconciles inside Coq (vm_compute of Proto3.step on the decoded pre-state is too
     bulky to print; instead the whole scenario is re-run from the empty world with the labels the driver derived) - here: the
@@ -53,7 +74,7 @@ def cross_check_in_coq(ctx, n_scen):
         f = ln.rstrip("\n").split("\t")
         if len(f) < 10 or f[0] != "p3.step":
             continue
-        s = f[2]
+        s = f[1].split(":")[0] + "/" + f[2]
         if f[3] == "init":
             kinds[s] = f[4]
             scen[s] = []
@@ -91,15 +112,15 @@ def cross_check_in_coq(ctx, n_scen):
             "Definition pa : path := [1].\nDefinition pz : path := [26].\n"
             "Definition leaf (p : path) (v idx : N) : path * pval := (p, {| pv_path := p; pv_val := v; pv_del := false; pv_idx := idx |}).\n"
             "Definition tomb (p : path) (idx : N) : path * pval := (p, {| pv_path := p; pv_val := 0; pv_del := true; pv_idx := idx |}).\n"
-            "Definition orc v c : oracle := {| o_verdict := v; o_code := c; o_last := None; o_master := 1 |}.\n"
-            "Definition orc2 v c : oracle := {| o_verdict := v; o_code := c; o_last := None; o_master := 2 |}.\n"
+            "Definition orc v c : oracle := {| o_verdict := v; o_code := c; o_last := None; o_master := 1; o_alloc := false |}.\n"
+            "Definition orc2 v c : oracle := {| o_verdict := v; o_code := c; o_last := None; o_master := 2; o_alloc := false |}.\n"
             "Definition cur (w : world) : list N := match w_cfg w with None => [] | Some c => "
             "[k_index (c_cm c); k_ordinal (c_cm c); k_revision (c_cm c); k_target (c_cm c); k_change (c_cm c); "
             "k_index (c_ap c); k_ordinal (c_ap c); k_revision (c_ap c); k_target (c_ap c)] end.\n"
             "Definition eqs (a b : list N) := Nat.eqb (length a) (length b) && forallb (fun p => fst p =? snd p) (combine a b).\n"
             "Definition first_own (w : world) : N := match filter snd (w_rels w) with r :: _ => fst r | [] => 0 end.\n"
             "Definition step' (w : world) (l : label) : world := match l with\n"
-            "  | LRecMaster k o => step w (LRecMaster k {| o_verdict := o_verdict o; o_code := o_code o; o_last := None; o_master := first_own w |})\n"
+            "  | LRecMaster k o => step w (LRecMaster k {| o_verdict := o_verdict o; o_code := o_code o; o_last := None; o_master := first_own w; o_alloc := false |})\n"
             "  | _ => step w l end.\n"
             "Definition run' (ls : list label) : world := fold_left step' ls w0.\n"
             "Definition cases : list (list label * list N) := [\n" + ";\n".join(cases) + "].\n"
